@@ -615,6 +615,16 @@ class Evaluator:
             return to_str(self.ev(node.args[0], env))
         if name == 'bool':
             return const_av(truth(self.ev(node.args[0], env)))
+        if name == 'range' and 1 <= len(node.args) <= 3:
+            vs = [self.ev(a, env) for a in node.args]
+            if not all(isinstance(v.val, int) and not isinstance(v.val, bool) for v in vs):
+                raise Unknown('range of unknown bounds')
+            return AV('list', items=tuple(const_av(i) for i in range(*[v.val for v in vs])))
+        if name == 'zip' and node.args and not node.keywords:
+            vs = [self.ev(a, env) for a in node.args]
+            if any(v.items is None for v in vs):
+                raise Unknown('zip of unknown contents')
+            return AV('list', items=tuple(AV('tuple', items=t) for t in zip(*[v.items for v in vs])))
         if name == 'sum' and node.args:
             v = self.ev(node.args[0], env)
             if v.items is None or not all(isinstance(x.val, (int, float)) and not isinstance(x.val, tuple) for x in v.items):
